@@ -1,5 +1,5 @@
 """Channel L: builder / layout / definition / replay correspondence (real code vs Lean model)."""
-import glob, hashlib, json, os, shutil, subprocess, time
+import glob, hashlib, json, os, re, shutil, subprocess, time
 from concurrent.futures import ThreadPoolExecutor
 from common import *
 
@@ -17,6 +17,115 @@ def _run_shard(args):
     if p.returncode != 0:
         return {"dir": outdir, "error": f"driver rc={p.returncode}: {p.stderr[-500:]}"}
     return {"dir": outdir, "mode": mode, "seed": seed}
+
+
+# ---- alpha-normalisation of generated function bodies -------------------------------------------------------------------------
+# Two generated modules that differ only by a consistent, injective renaming of local bindings (function parameters and `let`
+# bindings that are never used in struct-literal shorthand position) are the same program. The comparison of the generator's
+# output with the model's falls back to this normal form when the raw token lines differ.
+_TOK = re.compile(r"[A-Za-z_][A-Za-z0-9_]*|::|->|=>|.")
+_KW = {"mut", "ref", "self", "Self", "_", "let", "fn", "pub", "unsafe", "const", "crate", "super", "as", "in", "for", "if", "else", "match", "move", "dyn", "impl", "where"}
+
+
+def _idents_of_pattern(toks):
+    return [t for t in toks if re.match(r"[A-Za-z_]", t) and t not in _KW and not t[0].isupper()]
+
+
+def _split_top(toks, sep):
+    out, cur, depth = [], [], 0
+    for t in toks:
+        if t in "([{<":
+            depth += 1
+        elif t in ")]}>":
+            depth -= 1
+        if t == sep and depth == 0:
+            out.append(cur); cur = []
+        else:
+            cur.append(t)
+    out.append(cur)
+    return out
+
+
+def _until_top(toks, stops):
+    depth = 0
+    for i, t in enumerate(toks):
+        if t in "([{":
+            depth += 1
+        elif t in ")]}":
+            depth -= 1
+        if depth == 0 and t in stops:
+            return toks[:i]
+    return toks
+
+
+def alpha_fn(lines):
+    """lines of one `fn ... endfn` block -> the same lines with renamable binders replaced by $0, $1, ..."""
+    toks = [_TOK.findall(l) for l in lines]
+    binders = []
+    sig = toks[0]
+    name_i = -1
+    try:
+        k = len(sig) - 1 - sig[::-1].index("fn")        # last `fn` keyword of the signature line
+        name_i = next(i for i in range(k + 1, len(sig)) if sig[i] != " ")
+        j = sig.index("(", name_i)
+        depth, end = 0, j
+        for i in range(j, len(sig)):
+            if sig[i] == "(":
+                depth += 1
+            elif sig[i] == ")":
+                depth -= 1
+                if depth == 0:
+                    end = i; break
+        for prm in _split_top(sig[j + 1:end], ","):
+            binders += _idents_of_pattern(_until_top(prm, {":"}))
+    except (ValueError, StopIteration):
+        pass
+    for ts in toks[1:]:
+        tt = [t for t in ts if t != " "]
+        if len(tt) > 2 and tt[0] == "s" and tt[1] == "let":
+            binders += _idents_of_pattern(_until_top(tt[2:], {":", "="}))
+    short = set()
+    for ts in toks:
+        tt = [t for t in ts if t != " "]
+        for i in range(1, len(tt) - 1):
+            if tt[i - 1] in ("{", ",") and tt[i + 1] in (",", "}") and re.match(r"[a-z_]", tt[i]):
+                short.add(tt[i])
+    order = []
+    for b in binders:
+        if b not in short and b not in order:
+            order.append(b)
+    ren = {b: f"${i}" for i, b in enumerate(order)}
+    out = []
+    for li, ts in enumerate(toks):
+        res = []
+        prev = ""
+        for i, t in enumerate(ts):
+            if t in ren and prev not in ("::", ".") and not (li == 0 and i == name_i):
+                res.append(ren[t])
+            else:
+                res.append(t)
+            if t != " ":
+                prev = t
+        out.append("".join(res))
+    return out
+
+
+def alpha_ir(ans):
+    """normal form of an `ir ...` answer"""
+    if not ans.startswith("ir "):
+        return ans
+    lines = ans[3:].split("\t")
+    out, i = [], 0
+    while i < len(lines):
+        if lines[i].startswith("fn "):
+            j = i
+            while j < len(lines) and lines[j] != "endfn":
+                j += 1
+            out += alpha_fn(lines[i:j]) + (["endfn"] if j < len(lines) else [])
+            i = j + 1
+        else:
+            out.append(lines[i]); i += 1
+    return "ir " + "\t".join(out)
 
 
 def project(prop, req, ans):
@@ -79,6 +188,9 @@ def analyse(dirs, prop):
                     nontriv.add(hsh)
             for k in range(a, b):
                 if imp[k] != mod[k] and project(prop, req[k], imp[k]) != project(prop, req[k], mod[k]):
+                    if req[k].startswith("gen") and alpha_ir(imp[k]) == alpha_ir(mod[k]):
+                        res["alpha_equal"] = res.get("alpha_equal", 0) + 1    # same program up to renaming of local bindings
+                        continue
                     if hi not in bad_hist:
                         bad_hist[hi] = k
                         if len(res["disagreements"]) < 50:
@@ -135,7 +247,7 @@ def run(seed, tier, extra_seeds=0):
     for i, c in enumerate(sorted(glob.glob(os.path.join(VERIF, "corpus", "L-*.txt")))):
         jobs.append((f"file:{c}", 0, 0, os.path.join(base, f"corpus{i}")))
     nsh = 16
-    per = 2500 if tier == "quick" else 60000
+    per = 5000 if tier == "quick" else 60000
     if extra_seeds:
         per = per * 2
     for i in range(nsh):
